@@ -281,7 +281,7 @@ class Inliner:
                 return meths[fx.attr]
         return None
 
-    def expand(self, call, helper, bound, generator=None, tail=False, cont=None, owner=None):
+    def expand(self, call, helper, bound, generator=None, tail=False, cont=None, owner=None, stmt=None):
         """-> (statements, result expression | None)"""
         self.counter += 1
         tag = f"{helper.name}_{self.counter}"
@@ -335,7 +335,15 @@ class Inliner:
                 in_loop = any(isinstance(n, ast.Name) and n.id == v and isinstance(n.ctx, ast.Load) and not any(n is c_ for c_ in ast.walk(call))
                               for l_ in loops_ for n in ast.walk(l_))
                 return (before and after) or in_loop
-            clash = {v for v in clash if live_across(v)}
+            # a name the calling statement itself binds (`a, b = helper(..)`) is overwritten by it: the helper may use it freely
+            own_targets = set()
+            if isinstance(stmt, (ast.Assign, ast.AnnAssign)):
+                for t_ in (stmt.targets if isinstance(stmt, ast.Assign) else [stmt.target]):
+                    own_targets |= {x_.id for x_ in ast.walk(t_) if isinstance(x_, ast.Name) and isinstance(x_.ctx, ast.Store)}
+                if any(isinstance(x_, ast.Name) and x_.id in own_targets and isinstance(x_.ctx, ast.Load) for x_ in ast.walk(stmt)
+                       if not any(x_ is c_ for c_ in ast.walk(call))):
+                    own_targets = set()        # ... unless the statement also reads it
+            clash = {v for v in clash if v not in own_targets and live_across(v)}
             if clash and not tail:
                 ren = {v: f"{v}__{helper.name.lstrip('_')}" for v in clash}
 
@@ -549,7 +557,7 @@ class Inliner:
                 if self.sites.get(key, 0) >= MAX_SITES:
                     continue
                 is_tail = isinstance(st, ast.Return) and st.value is call
-                ex = self.expand(call, helper, bound, tail=is_tail, owner=owner)
+                ex = self.expand(call, helper, bound, tail=is_tail, owner=owner, stmt=st)
                 if ex is None:
                     continue
                 new_stmts, result = ex
